@@ -647,6 +647,11 @@ func (s *r2State) blockingSite(name string, ev *core.Event, sel *ast.SelectStmt,
 		kind = "recv"
 	}
 	site := kind + c.ordinal(ev.Node)
+	if ev.Kind == core.KCall && ev.Call != nil {
+		// calls are named by their callee, so that unrelated calls added or removed earlier in the
+		// function do not rename the site
+		site = c.callOrdinal(ev.Call, ev.Frame.Info())
+	}
 	if ctxP != nil {
 		s.note("R2f", name+"/blocking-site:"+site+"/ctx", ev.Pos, !hasCtx, "the blocking site listens to the context",
 			"this blocking site does not listen to the function's context: cancellation is not noticed while blocked here", p)
